@@ -7,6 +7,9 @@ HOOK_COMMITS = subprocess.run(["git", "-C", "/repo", "log", "--format=%H", "--",
                               stdout=subprocess.PIPE, text=True).stdout.split()
 
 CLAIMED = {
+ "C04": dict(cat="proof", tech="Coq model of container/heap + Top-K with extracted-model correspondence on Values() and the raw heap array; Coq proof of the Values ordering (partial)",
+   text="A faithful executable model of container/heap (up/down/Push/Pop/Remove) and of Top-K is diffed against the code after every step on Values() and on the heap array (ties, re-insertions, narrow sketches, counts to 2^32); an exact-totals monitor checks every clause of the property on the code's outputs. Proved so far: Values() is a permutation of the heap sorted by (count desc, element asc). The heap-order theorems behind 'unreported <= minimum' are not yet proved (partial).",
+   note="Trusted as C03; container/heap is modelled, not verified.", ref="6 C04"),
  "C02": dict(cat="proof", tech="Coq proof (involution for power-of-two sizes, Remove/Lookup agreement) + refutation witnesses by vm_compute on the concrete murmur3 model + extracted-model correspondence",
    text="The full no-false-negative statement is refuted on the faithful model for non-power-of-two bucket counts and for empty fingerprints (witness theorems, replayed on the code as known findings); the eviction-loop defect was repaired. Proved so far: alternate-bucket involution for 2^j sizes, Remove succeeds iff Lookup is true and otherwise changes nothing. Every Insert/Remove/Lookup outcome and the murmur3 model are diffed against the code on histories that saturate small filters with mirrored random draws; a live-multiset monitor searches for lost elements.",
    note="Trusted as C01, plus math/rand mirrored through rand.Seed. The class-counting proof of the full statement for power-of-two sizes is not yet done (partial).", ref="6 C02"),
